@@ -8,6 +8,7 @@ import AL.Model.ActionDecode
 import AL.Model.ConfigDecode
 import Driver.Util
 import AL.Model.Ignore
+import AL.Lemmas.C20DBase
 /-
   `parsewf <numbers> <node>`: the document node as an S-expression
       (k,tag,value,q,line,col,(children…))     k ∈ d s m c a   (document sequence mapping sCalar alias)
@@ -510,6 +511,34 @@ def handleIgnoreTail : List String → String
       if out.isEmpty then "none" else ",".intercalate (out.map fun d => s!"{d.line}:{d.col}:{hexStr d.msg}")
     | _, none, _, _, _, _, _ => "config-error"
     | _, _, _, _, _, _, _ => "bad-op"
+  | _ => "bad-op"
+
+end Driver.ParseWfD
+
+namespace Driver.ParseWfD
+open AL.Yaml AL.Ast AL.PW Driver
+open AL.ShellVisit in
+/-- `shellvisitdoc <numbers> <node>`: the decisions of rule_shellcheck.go / rule_pyflakes.go for a DOCUMENT — the parser model,
+then `AL.C20D.shellView` (what the two rules read of the AST), then the visitor models `AL.ShellVisit.scWorkflow` /
+`pyWorkflow`. Same answer format as `shellvisit` (jobs `;`, steps `,`, `<shell handed to shellcheck or ->/<pyflakes 0|1>`). -/
+def handleShellVisitDoc : List String → String
+  | [nums, node] =>
+    let ns : Option (List Num) := match readSExp nums with
+      | some (.atom "E") => some []
+      | some (.list l) => l.mapM numOf
+      | _ => none
+    match ns, (readSExp node) >>= nodeOf with
+    | some ns, some n =>
+      let wf := AL.C20D.shellView (parse (cfgOf ns) n).1
+      let sc := (scWorkflow Driver.lower ScSt.init wf).2
+      let py := (pyWorkflow PySt.init wf).2
+      ";".intercalate ((sc.zip py).map fun (a, b) =>
+        ",".intercalate ((a.zip b).map fun (s, p) =>
+          let tool := match s with
+            | some eff => (AL.Proc.shellcheckShell eff).getD "-"
+            | none => "-"
+          s!"{tool}/{if p then 1 else 0}"))
+    | _, _ => "bad-op"
   | _ => "bad-op"
 
 end Driver.ParseWfD
